@@ -22,6 +22,8 @@ class ExprMixin:
 
     def _raise_if(self, p, cond, exc, note):
         """Fork an exceptional path on which `cond` holds; the current path continues with not cond."""
+        if self.spec_mode:
+            return    # specification expressions are total: an out-of-domain read denotes an unspecified value
         g = self._guard()
         full = cond if g is None else z3.And(g, cond)
         if z3.is_false(z3.simplify(full)):
@@ -155,6 +157,10 @@ class ExprMixin:
 
     def member(self, x, c, p):
         """x in c"""
+        if isinstance(c.ty, T.Opt):
+            if not self.spec_mode:
+                self._raise_if(p, c.is_none, "TypeError", "`in` on None")
+            return self.member(x, c.val, p)
         if isinstance(c.ty, T.Map):
             return c.dom[self.coerce(x, c.ty.k).t]
         if c.ty == T.TUP:
